@@ -114,6 +114,12 @@ class Ctx:
         cov = dict(self.coverage)
         cov.setdefault("samples", self.samples or [{"note": "no sample recorded"}])
         cov["guards"] = dict(self.guards)
+        try:
+            from mc.explore import AUDIT_STATS
+            if AUDIT_STATS["bfs_runs"]:
+                cov["fingerprint_merge_audit"] = dict(AUDIT_STATS)
+        except Exception:       # noqa
+            pass
         cov["known_findings_seen"] = sorted(known_hit)
         if self.notes:
             cov["notes"] = self.notes
@@ -154,6 +160,7 @@ def main(prop, level, body, replay=None):
     ap.add_argument("--replay")
     args = ap.parse_args()
     seed = int(os.environ.get("VERIF_SEED", "0") or 0)
+    os.environ["VERIF_TIER_HINT"] = args.tier
     ctx = Ctx(prop, args.tier, seed, level)
     try:
         if args.replay:
